@@ -27,6 +27,7 @@ type WorkerResult struct {
 	Undecided    []interp.Undecided `json:"undecided,omitempty"`
 	Cexs         []string           `json:"cex_files,omitempty"`
 	CexLabels    []string           `json:"cex_labels,omitempty"`
+	Witnesses    []string           `json:"witness_files,omitempty"`
 	Reach        map[string]int     `json:"reach"`
 	Inconclusive []string           `json:"inconclusive,omitempty"`
 	Samples      []interp.Sample    `json:"samples,omitempty"`
@@ -110,7 +111,7 @@ func RunWorker(prop, hname, tier string, caseIdx int, outDir string, verbose boo
 		Harness: hname, OutDir: outDir, Case: caseIdx, Cases: cases,
 		FeasTimeout: 2 * time.Second, PipeTimeout: 10 * time.Second, PortTimeout: time.Duration(oblS) * time.Second,
 		Backends: backends, MaxPaths: ts.MaxPaths, Deadline: start.Add(time.Duration(tmo) * time.Second),
-		Verbose: verbose, Pin: pin,
+		Verbose: verbose, Pin: pin, Witnesses: witnessCount(h, tier, caseIdx),
 	}
 	eng, err := interp.NewEngine(opt)
 	if err != nil {
@@ -126,6 +127,7 @@ func RunWorker(prop, hname, tier string, caseIdx int, outDir string, verbose boo
 		res.Cexs = append(res.Cexs, c.File)
 		res.CexLabels = append(res.CexLabels, c.Label)
 	}
+	res.Witnesses = eng.Witnesses
 	res.Reach = eng.Reach
 	res.Inconclusive = eng.InconclusiveList()
 	res.Samples = eng.Samples
@@ -152,3 +154,16 @@ func WriteResult(res *WorkerResult, file string) error {
 }
 
 var _ = fmt.Sprint
+
+func witnessCount(h *HarnessSpec, tier string, k int) int {
+	if h.Replay == "none" {
+		return 0
+	}
+	if tier == "thorough" {
+		return 2
+	}
+	if k == 0 {
+		return 1
+	}
+	return 0
+}
